@@ -50,6 +50,7 @@ type CrashDS struct {
 	// ErrOnPrefix, when not empty, makes the next durable write that touches a key with this prefix fail with a
 	// plain I/O error (not applied), once.
 	ErrOnPrefix string
+	failQueries int
 }
 
 var _ ds.Batching = (*CrashDS)(nil)
@@ -128,6 +129,13 @@ func (d *CrashDS) SetErrOnPrefix(prefix string) {
 }
 
 // Disarm removes a pending crash/error.
+// FailQueries makes the next n Query calls fail with an I/O error (a read fault; nothing is changed).
+func (d *CrashDS) FailQueries(n int) {
+	d.mu.Lock()
+	defer d.mu.Unlock()
+	d.failQueries = n
+}
+
 func (d *CrashDS) Disarm() {
 	d.mu.Lock()
 	defer d.mu.Unlock()
@@ -256,6 +264,11 @@ func (d *CrashDS) Query(ctx context.Context, q dsq.Query) (dsq.Results, error) {
 	if d.dead {
 		d.mu.Unlock()
 		return nil, ErrDead
+	}
+	if d.failQueries > 0 {
+		d.failQueries--
+		d.mu.Unlock()
+		return nil, errors.New("crashds: injected read fault (query)")
 	}
 	keys := make([]string, 0, len(d.data))
 	for k := range d.data {
